@@ -255,8 +255,19 @@ def check(prop, tier, only=None, extra_checks=None):
         say("MODEL-MISMATCH property=%s trace=%s  # %s: counterexample did not reproduce natively: %s" % (prop, path, iid, "; ".join(descs)[:400]))
     write_evidence(prop, tier, seed, recs, extra, violations, mismatches, broken, time.time() - t0, wv)
     R.cleanup()
-    if not os.environ.get("VX_KEEP") and not violations and not mismatches and not broken:
-        shutil.rmtree(rundir, ignore_errors=True)
+    if not os.environ.get("VX_KEEP"):
+        if not violations and not mismatches and not broken:
+            shutil.rmtree(rundir, ignore_errors=True)
+        else:
+            # keep what explains a failure (sources, scripts, small logs), drop the bulk (goto binaries, SMT dumps, long symex logs)
+            for root, dirs, files in os.walk(rundir):
+                for f in files:
+                    fp = os.path.join(root, f)
+                    try:
+                        if os.path.getsize(fp) > 4 * 1024 * 1024:
+                            os.unlink(fp)
+                    except OSError:
+                        pass
     if violations:
         return 1
     if mismatches or broken:
